@@ -87,9 +87,15 @@ def run_case(case, ctx):
     labels = np.array(["a", "b"])[ytr]
     yfit = ytr.astype(float) + 0.1 * rng.normal(size=len(ytr)) if name in pzoo.REGRESSORS else labels
     est = pzoo.build(name, case["eseed"])
+    variant = pzoo.random_variant(np.random.default_rng([case["dseed"], 7]), est) if case["dseed"] % 3 == 0 else None
+    if variant:
+        ctx.tag("option-variant")
     try:
         est.fit(Xtr, yfit) if (name in pzoo.CLASSIFIERS or name in pzoo.REGRESSORS or name in pzoo.SUPERVISED_T) else est.fit(Xtr)
     except Exception as e:  # noqa
+        if variant:
+            ctx.tag("option-variant-rejected-at-fit:%s:%s:%s" % (name, variant.split("=")[0], type(e).__name__))
+            return
         from vmon.core import env_signature, exc_sig
         env = env_signature(e)
         if env:
@@ -108,6 +114,13 @@ def run_case(case, ctx):
         except Exception:  # noqa
             pass
     for fname, f in _apply_fns(name, est).items():
+        if variant:
+            # an option value the estimator only validates when it is applied
+            try:
+                f(X)
+            except Exception as e:  # noqa
+                ctx.tag("option-variant-rejected-at-apply:%s:%s:%s" % (name, variant.split("=")[0], type(e).__name__))
+                return
         ok, base = ctx.call("apply:exception:%s:%s" % (name, fname), f, X)
         if not ok:
             continue
@@ -168,6 +181,9 @@ def run_case(case, ctx):
         ctx.nontrivial = ni >= 3
         return
     est2 = pzoo.build(name, case["eseed"])
+    if variant:
+        k_, v_ = variant.split("=", 1)
+        est2.set_params(**{k_: est.get_params(deep=False)[k_]})
     Atr = np.array([[np.asarray(Xtr.iloc[i, j], dtype=float) for j in range(nc)] for i in range(len(Xtr))])
     try:
         est2.fit(Atr, yfit) if (name in pzoo.CLASSIFIERS or name in pzoo.REGRESSORS or name in pzoo.SUPERVISED_T) else est2.fit(Atr)
@@ -189,6 +205,6 @@ def run_case(case, ctx):
                 O1, O2 = pzoo.canon(o1), pzoo.canon(o2)
                 ctx.check("container.fit", len(O1) == len(O2) and all(pzoo.rows_equal(a, b) for a, b in zip(O1, O2)), "container:%s:%s:fit-on-3d-array-differs" % (name, fname),
                           "fitting on the 3-d array form gives another fitted map than fitting on the nested DataFrame")
-    ctx.event(est=name, shape=[ni, nc, nt], cells=case["cells"])
+    ctx.event(est=name, shape=[ni, nc, nt], cells=case["cells"], variant=variant)
     ctx.tag("est:" + name)
     ctx.nontrivial = ni >= 3
